@@ -20,6 +20,18 @@ import (
 
 type customPanic struct{ n int }
 
+// asCoded is an application error type that exposes a *connect.Error through an As method.
+type asCoded struct{ inner *connect.Error }
+
+func (e asCoded) Error() string { return "application error: " + e.inner.Error() }
+func (e asCoded) As(target any) bool {
+	if t, ok := target.(**connect.Error); ok {
+		*t = e.inner
+		return true
+	}
+	return false
+}
+
 func panicValueFor(class, variant string) any {
 	switch class {
 	case "nil":
@@ -65,9 +77,16 @@ func panicOp(c *Ctx, op string) {
 		calls = append(calls, classify(v))
 		callVals = append(callVals, v)
 		coded := connect.NewError(connect.CodeDataLoss, errors.New("recovered"))
-		if a["ret"] == "wrapped" {
+		switch a["ret"] {
+		case "wrapped":
 			// a recovery function that adds context to a coded error it got from elsewhere
 			return fmt.Errorf("while handling the panic: %w", coded)
+		case "joined":
+			// ... or keeps the panic next to it
+			return errors.Join(coded, fmt.Errorf("panic: %v", v))
+		case "asmethod":
+			// ... or returns its own error type that presents a coded error through errors.As
+			return asCoded{coded}
 		}
 		return coded
 	}
@@ -108,6 +127,11 @@ func panicOp(c *Ctx, op string) {
 	switch a["kind"] {
 	case "unary":
 		h = connect.NewUnaryHandler("/s/m", func(ctx context.Context, req *connect.Request[wrapperspb.Int64Value]) (*connect.Response[wrapperspb.Int64Value], error) {
+			if a["fwd"] == "1" {
+				// a proxy-style handler: the request it received goes on to a downstream client
+				down := connect.NewClient[wrapperspb.Int64Value, wrapperspb.Int64Value](&staticClient{status: 200, header: http.Header{"Content-Type": {"application/proto"}}}, "http://h/down.v1.S/M")
+				_, _ = down.CallUnary(ctx, req)
+			}
 			maybePanic("before")
 			maybePanic("between")
 			maybePanic("after")
@@ -306,6 +330,12 @@ func streamPanic(c *Ctx) {
 						}
 						pre, post := r.Intn(3), r.Intn(3)
 						panicOp(c, fmt.Sprintf("recover %s 0 %s kind=%s proto=%s point=%s pre=%d post=%d val=%s", api, class, kind, proto, point, pre, post, val))
+						if kind == "unary" && point == "before" {
+							panicOp(c, fmt.Sprintf("recover %s 0 %s kind=%s proto=%s point=%s pre=%d post=%d val=%s fwd=1", api, class, kind, proto, point, pre, post, val))
+						}
+						if point == "after" && class != "none" {
+							panicOp(c, fmt.Sprintf("recover %s 0 %s kind=%s proto=%s point=%s pre=%d post=%d val=%s ret=%s", api, class, kind, proto, point, pre, post, val, []string{"joined", "asmethod"}[r.Intn(2)]))
+						}
 						if point == "between" || class == "none" {
 							panicOp(c, fmt.Sprintf("recover %s 0 %s kind=%s proto=%s point=%s pre=%d post=%d val=%s nil=%d ret=%s", api, class, kind, proto, point, pre, post, val, 1+r.Intn(4), []string{"coded", "wrapped"}[r.Intn(2)]))
 						}
